@@ -114,6 +114,12 @@ inductive Path where
   | vaultCollectFees
   | vaultConfigStranger  -- ExecuteMsg::UpdateConfig (all switches off) sent by somebody who is not the owner
   | vaultCallbackExternal -- ExecuteMsg::Callback(AfterTrade) sent by somebody who is not the vault
+  -- LP cw20 Send whose hook payload is not a hook message (empty, `{}`, an unknown variant): sending LP tokens to
+  -- the pool / vault is the act of withdrawing, so the withdraw switch names these paths; the handler fails on
+  -- parsing before it reads any switch
+  | pairHookMalformed
+  | trioHookMalformed
+  | vaultHookMalformed
 deriving DecidableEq, Repr
 
 def Path.all : List Path :=
@@ -122,22 +128,22 @@ def Path.all : List Path :=
    .trioProvide, .trioWithdrawHook, .trioWithdrawDirect, .trioSwapNative, .trioSwapCw20Hook,
    .trioSwapDirectCw20, .trioCollectFees,
    .vaultDeposit, .vaultWithdrawHook, .vaultWithdrawDirect, .vaultFlashLoan, .vaultRouterLoan, .vaultCollectFees,
-   .vaultConfigStranger, .vaultCallbackExternal]
+   .vaultConfigStranger, .vaultCallbackExternal, .pairHookMalformed, .trioHookMalformed, .vaultHookMalformed]
 
 def Path.family : Path → Family
   | .pairProvide | .helperDeposit | .pairWithdrawHook | .pairWithdrawDirect | .pairSwapNative
   | .pairSwapCw20Hook | .pairSwapDirectCw20 | .routerHopNative | .routerHopCw20 | .routerTwoHop
-  | .pairCollectFees => .pair
+  | .pairCollectFees | .pairHookMalformed => .pair
   | .trioProvide | .trioWithdrawHook | .trioWithdrawDirect | .trioSwapNative | .trioSwapCw20Hook
-  | .trioSwapDirectCw20 | .trioCollectFees => .trio
+  | .trioSwapDirectCw20 | .trioCollectFees | .trioHookMalformed => .trio
   | .vaultDeposit | .vaultWithdrawHook | .vaultWithdrawDirect | .vaultFlashLoan | .vaultRouterLoan
-  | .vaultCollectFees | .vaultConfigStranger | .vaultCallbackExternal => .vault
+  | .vaultCollectFees | .vaultConfigStranger | .vaultCallbackExternal | .vaultHookMalformed => .vault
 
 /-- SPECIFICATION side: the operation (switch) a path is a way of invoking. -/
 def Path.names : Path → Option Switch
   | .pairProvide | .helperDeposit | .trioProvide | .vaultDeposit => some .a
   | .pairWithdrawHook | .pairWithdrawDirect | .trioWithdrawHook | .trioWithdrawDirect
-  | .vaultWithdrawHook | .vaultWithdrawDirect => some .b
+  | .vaultWithdrawHook | .vaultWithdrawDirect | .pairHookMalformed | .trioHookMalformed | .vaultHookMalformed => some .b
   | .pairSwapNative | .pairSwapCw20Hook | .pairSwapDirectCw20 | .routerHopNative | .routerHopCw20
   | .routerTwoHop | .trioSwapNative | .trioSwapCw20Hook | .trioSwapDirectCw20
   | .vaultFlashLoan | .vaultRouterLoan => some .c
@@ -150,7 +156,7 @@ def Path.names : Path → Option Switch
 def Path.consults : Path → Option Switch
   | .pairProvide | .helperDeposit | .trioProvide | .vaultDeposit => some .a
   | .pairWithdrawHook | .trioWithdrawHook | .vaultWithdrawHook | .vaultWithdrawDirect => some .b
-  | .pairWithdrawDirect | .trioWithdrawDirect => none
+  | .pairWithdrawDirect | .trioWithdrawDirect | .pairHookMalformed | .trioHookMalformed | .vaultHookMalformed => none
   | .pairSwapNative | .pairSwapCw20Hook | .pairSwapDirectCw20 | .routerHopNative | .routerHopCw20
   | .routerTwoHop | .trioSwapNative | .trioSwapCw20Hook | .trioSwapDirectCw20
   | .vaultFlashLoan | .vaultRouterLoan => some .c
@@ -172,6 +178,7 @@ def entryRejects (lpCw20 : Bool) : Path → Bool
   | .pairWithdrawDirect | .trioWithdrawDirect | .vaultWithdrawDirect => lpCw20
   | .pairSwapDirectCw20 | .trioSwapDirectCw20 => true
   | .vaultConfigStranger | .vaultCallbackExternal => true
+  | .pairHookMalformed | .trioHookMalformed | .vaultHookMalformed => true
   | _ => false
 
 /-- Guards that read the vault's `LOAN_COUNTER` (all of them come AFTER the handler's switch check):
